@@ -197,7 +197,7 @@ fn gen_hs(run: &mut Run, prop: &str, seed: u64, thorough: bool) {
                     // every failure cause x message, with twin comparison under fixed ephemerals
                     "C07" | "C06" | "C10" | "C14" | "C19" | "C03" | "C11" | "C12" | "C17" => {
                         cfg.fixed_e = prop == "C07" || r.chance(1, 2);
-                        cfg.query_each_step = matches!(prop, "C07" | "C11" | "C17");
+                        cfg.query_each_step = matches!(prop, "C07" | "C11" | "C17" | "C10");
                         if prop == "C17" && !real {
                             cfg.dh = "P256".into();
                         }
@@ -243,7 +243,13 @@ fn gen_hs(run: &mut Run, prop: &str, seed: u64, thorough: bool) {
                                     v
                                 },
                                 "C12" => vec![Fault::MissingPsk],
-                                "C17" => vec![Fault::ReadTamper(Tamper::Flip { field: lay[k].len() - 1, at_end: true }), Fault::ReadCapShort(1)],
+                                "C17" => vec![
+                                    Fault::ReadTamper(Tamper::Flip { field: lay[k].len() - 1, at_end: true }),
+                                    Fault::ReadCapShort(1),
+                                    // refused writes and out-of-phase calls must not touch the reported key either
+                                    Fault::WriteCapShort(1),
+                                    Fault::OutOfTurn,
+                                ],
                                 _ => {
                                     // a psk that is set only after a first, failing attempt (the failure comes in
                                     // the middle of the token loop when the psk token is not the first one)
@@ -792,7 +798,7 @@ fn gen_transport(run: &mut Run, prop: &str, seed: u64, thorough: bool) {
                     run_transport(&cfg, &mut sc);
                     run.add("transport", format!("{prop} transport {n} {res} #{rep}"), sc);
                 }
-                if matches!(prop, "C01" | "C02" | "C04" | "C05" | "C09" | "C11" | "C16" | "C15" | "C10" | "C19" | "C14" | "C06" | "C07" | "C17") {
+                if matches!(prop, "C01" | "C02" | "C04" | "C05" | "C09" | "C11" | "C16" | "C15" | "C10" | "C19" | "C14" | "C06" | "C07" | "C17" | "C20") {
                     let mut sc = Sc::new();
                     run_stateless(&cfg, &mut sc);
                     run.add("stateless", format!("{prop} stateless {n} {res} #{rep}"), sc);
